@@ -347,6 +347,8 @@ func (L *LockInfo) analyzeLocks(fn *ssa.Function) *LockResult {
 			if h, ok := s.held[lo.path]; ok {
 				if lo.op == 'L' || h == 'W' {
 					report("self-deadlock", at, lo.path, fmt.Sprintf("%s acquired while already held (%c) on this path", lo.path, h), n)
+				} else {
+					report("recursive-rlock", at, lo.path, fmt.Sprintf("%s read-locked again while already read-locked on this path: dead-locks as soon as a writer queues in between", lo.path), n)
 				}
 			}
 			for hp := range s.held {
@@ -419,6 +421,8 @@ func (L *LockInfo) analyzeLocks(fn *ssa.Function) *LockResult {
 							np := substParams(a.path, args)
 							if h, ok := s.held[np]; ok && (a.write || h == 'W') {
 								report("callee-deadlock", in, np, fmt.Sprintf("%s is held (%c) while calling %s, which acquires it again (in %s): self-deadlock", np, h, FnName(g), a.via), n)
+							} else if ok && h == 'R' && !a.write {
+								report("recursive-rlock", in, np, fmt.Sprintf("%s is read-locked while calling %s, which read-locks it again (in %s): dead-locks as soon as a writer queues between the two RLocks", np, FnName(g), a.via), n)
 							}
 							for hp := range s.held {
 								if hp != np {
